@@ -73,6 +73,28 @@ def carrier_defaults(sr) -> List[Any]:
     return ["-inf", 0.0, "inf", -1.5]
 
 
+class CaseTimeout(Exception):
+    pass
+
+
+CASE_TIMEOUT_S = 10.0
+
+
+class time_limit:
+    """SIGALRM guard: a call that does not return within CASE_TIMEOUT_S raises CaseTimeout (reported as a failure)"""
+    def __enter__(self):
+        import signal
+        def on_alarm(signum, frame):
+            raise CaseTimeout(f"no result after {CASE_TIMEOUT_S:.0f} s: does not terminate")
+        self.old = signal.signal(signal.SIGALRM, on_alarm)
+        signal.setitimer(signal.ITIMER_REAL, CASE_TIMEOUT_S)
+    def __exit__(self, *a):
+        import signal
+        signal.setitimer(signal.ITIMER_REAL, 0)
+        signal.signal(signal.SIGALRM, self.old)
+        return False
+
+
 # ============================================================================= (1) representation clause
 def same_close(got: torch.Tensor, want: torch.Tensor, rtol: float) -> Optional[Tuple[str, str]]:
     if tuple(got.size()) != tuple(want.size()):
@@ -125,7 +147,8 @@ def run_rep(case, ops=OPS) -> List[Tuple[str, str, str]]:
                 out.append((op, "harness-reference-raises", f"reference S.{op} on dense tensors raised {type(e).__name__}: {e}"))
                 continue
             try:
-                got = getattr(S, op)(t1, t2).to_dense()
+                with time_limit():
+                    got = getattr(S, op)(t1, t2).to_dense()
                 exc = None
             except Exception as e:
                 exc = e
